@@ -212,6 +212,49 @@ pub fn test_tool(case: &DictCase) -> TestResult {
         )
         .into());
     }
+    // dump and replacement in one invocation ("keep the old dictionary while installing a new
+    // one"): the dump is still the dictionary of the model that was read - replacing with it
+    // reproduces that model - and the written model carries the replacement. A usage error is
+    // accepted. The replacement file is the program's own dump of the case's first dictionary.
+    let combined;
+    {
+        let (min2, other, dump2, mout2) = (dir.path("in2.zst"), dir.path("other.csv"), dir.path("dump2.csv"), dir.path("out2.zst"));
+        let other_bytes = case.spec.to_bytes();
+        std::fs::write(&min2, util::zstd_encode(&other_bytes)).map_err(|e| e.to_string())?;
+        let r = util::run_tool("manipulate_model", &["--model-in".into(), s(&min2), "--dump-dict".into(), s(&other)], b"")?;
+        ensure!(r.code == Some(0), "--dump-dict exits with {:?}: {}", r.code, r.stderr);
+        if spec.dict.len() % 2 == 1 {
+            util::prefill(&dump2, spec.dict.len() + 7);
+        }
+        let r = util::run_tool(
+            "manipulate_model",
+            &["--model-in".into(), s(&min), "--dump-dict".into(), s(&dump2), "--replace-dict".into(), s(&other), "--model-out".into(), s(&mout2)],
+            b"",
+        )?;
+        ensure!(!r.stderr.contains("panicked"), "tool panics when --dump-dict and --replace-dict are combined: {}", r.stderr);
+        if r.code == Some(0) {
+            let alone = std::fs::read(&csv).map_err(|e| e.to_string())?;
+            let together = std::fs::read(&dump2).map_err(|e| format!("no dump written: {e}"))?;
+            ensure!(
+                alone == together,
+                "--dump-dict combined with --replace-dict writes a dump that differs from the dump of the same model taken alone (replacing with it would not reproduce the model): alone {:?}, combined {:?}",
+                String::from_utf8_lossy(&alone),
+                String::from_utf8_lossy(&together)
+            );
+            let out2 = util::zstd_decode(&std::fs::read(&mout2).map_err(|e| format!("no output model: {e}"))?)?;
+            if out2 != other_bytes {
+                let got = ModelSpec::from_bytes(&out2).map(|x| x.0.dict).ok();
+                return Err(format!(
+                    "--dump-dict + --replace-dict in one run: the written model's dictionary is {:?}, the replacement file holds {:?}",
+                    got, case.spec.dict
+                )
+                .into());
+            }
+            combined = "dump+replace-in-one-run";
+        } else {
+            combined = "dump+replace-in-one-run:refused";
+        }
+    }
     // replacing with a file that holds no record removes the dictionary (what the library's
     // replace_dictionary(vec![]) does)
     if spec.dict.len() % 3 == 1 || spec.dict.len() > 1000 {
@@ -279,7 +322,8 @@ pub fn test_tool(case: &DictCase) -> TestResult {
         .class(spec.dict.iter().any(|d| d.weights.iter().any(|&w| w == i32::MIN || w == i32::MAX)), "32-bit-extreme-weight")
         .class(spec.dict.iter().any(|d| !d.comment.is_empty()), "comment")
         .class(spec.dict.is_empty(), "empty-dictionary")
-        .class(rejected_checked, "bad-row-rejected"))
+        .class(rejected_checked, "bad-row-rejected")
+        .class(!combined.is_empty(), combined))
 }
 
 /// Deterministic scale cases: replacement dictionaries of 70,000 words (more than 65,535
@@ -356,7 +400,9 @@ Non-trivial = the replacement changes at least one score.",
 dictionary (commas, quotes, CR/LF, leading/trailing spaces, '#', multi-byte words; negative and \
 full-range i32 weights; arbitrary comments) -> --dump-dict -> --replace-dict with the untouched \
 CSV -> --model-out: zstd-decoded output bytes equal the input model bytes; a CSV row with a wrong \
-weight count makes the tool exit non-zero without a panic and without writing a different model. \
+weight count makes the tool exit non-zero without a panic and without writing a different model; \
+--dump-dict together with --replace-dict (another dictionary) in one invocation writes the same \
+dump as the dump taken alone and a model that carries the replacement (a usage error is accepted). \
 Non-trivial = a word needing CSV quoting and a negative weight.",
         n,
         || case_strategy(ModelCfg { allow_255: false, max_ngrams: 3, max_type_ngrams: 2, max_words: 0, max_texts: 1, ..ModelCfg::BOUNDARY }),
